@@ -71,7 +71,7 @@ def make_obj(o):
             spec.declare_var(v, "float")
     io = o.get("mode", {}).get("io", {})
     for v, t in sorted(io.items()):
-        if o.get("set_io", sem != "standard"):
+        if o.get("set_io", sem != "standard") and "." not in v:
             spec.set_var_io_type(v, t)
     for c in o.get("consts", []):
         # [name, value text] or [name, value text, "float"]: the value handed to the API as a Python float
@@ -89,6 +89,10 @@ def make_obj(o):
     if o.get("out_field") or any("." in v for v in o.get("declare", o["vars"])):
         spec.import_module("vmsgs", "Msg")
         spec.declare_var("o", "Msg")
+        for v, t in sorted(io.items()):
+            # the input / output kind of the fields o.x, o.f is that of the object variable o (declared just now)
+            if o.get("set_io", sem != "standard") and "." in v:
+                spec.set_var_io_type(v.split(".")[0], t)
     if o.get("out_field"):
         # the output is a field of an object variable: "o.value = <formula>" instead of "out = <formula>"
         assert o["text"].startswith("out = ")
@@ -327,7 +331,7 @@ def _run_case(case):
                     if ev.get("io"):
                         # the input / output declarations changed on a parsed object, which is then parsed again (C06)
                         for v, t in sorted(ev["io"].items()):
-                            spec.set_var_io_type(v, t)
+                            spec.set_var_io_type(v.split(".")[0], t)       # (o.x: the kind of the object variable o)
                         spec.parse()
                 elif a == "reparse":
                     # another text (and further sub-specifications) on the same object, parsed again
